@@ -95,7 +95,7 @@ def run(tier, seed):
     ctx = core.Ctx(PID, tier, seed, LEVEL)
     rng = ctx.rng
     maxlen = 5 if tier == "quick" else 6
-    nsess = 400 if tier == "quick" else 8000
+    nsess = 400 if tier == "quick" else core.share(8000)
     nsplit = 4
     ctx.rule = ("(i) every string of length <= %d over the alphabet %r: the REPL's submission test vs token-level depth (exhaustive); (ii) %d random sessions of forms from the core and "
                 "derived-form generators plus failing forms, display calls and literals containing brackets/semicolons/quotes, each fed to the real binary under %d random line "
@@ -104,7 +104,7 @@ def run(tier, seed):
     ctx.assumptions = ["one form per submission; the reference for (ii) is the same interpreter code driven through Interpreter::eval one form at a time (values via Display, errors via Display)",
                        "an open #| block comment (not implemented by Ruschm) may be judged either way by the submission test"]
     # ---------------- (i)
-    strings = ["".join(t) for n in range(0, maxlen + 1) for t in itertools.product(ALPHA, repeat=n)]
+    strings = core.mine(["".join(t) for n in range(0, maxlen + 1) for t in itertools.product(ALPHA, repeat=n)])
     recs = core.run_driver("replcheck", strings, "dev" if tier == "quick" else "release", timeout=900, tag="c18c")
     for text, got in zip(strings, recs):
         ctx.evaluations += 1
